@@ -29,3 +29,33 @@ Theorem C11_validate_errs_list :
 Proof. exact validate_errs_list. Qed.
 Print Assumptions C11_validate_errs_list.
 
+(* configuration objects offered to a list of configurations (append / item assignment / insert) are validated as a whole, against the item schema, before they are taken; and whether validation finds anything does not depend on the reference path *)
+
+Theorem C11_obj_item_validated :
+  forall (F : Type) (lvalidate lto_python : F -> pyval -> res pyval) (ldefault : F -> N -> pyval) (lcallable lflag : F -> bool) (vrun : N -> list (str * pyval) -> bool) (o : cop) (k : str) (src : cfg) (w : world) (pre : str) (c : cfg) (dyn : bool) (vs : list N) (fs : list (str * node F)) (w' : world) (c' : cfg), obj_list_op o = Some (k, src) -> apply_cop F lvalidate lto_python ldefault lcallable lflag vrun w pre c dyn vs fs o = (w', c', OOk) -> exists (req : bool) (vs' : list N) (fs' : list (str * node F)) (l l' : list cfg), fget F k fs = Some (NCfgList req vs' fs') /\ dget k (c_data c) = Some (VList l) /\ validate_errs F lvalidate lflag vrun (NSub false vs' fs') (path_index (path_join pre k) (N.of_nat (Datatypes.length l))) (VCfg src) = [] /\ dget k (c_data c') = Some (VList l') /\ In src l'.
+Proof. exact obj_item_validated. Qed.
+Print Assumptions C11_obj_item_validated.
+
+Theorem C11_validation_path_independent :
+  forall (F : Type) (lvalidate : F -> pyval -> res pyval) (lflag : F -> bool) (vrun : N -> list (str * pyval) -> bool) (nd : node F) (pre pre' : str) (v : val), validate_errs F lvalidate lflag vrun nd pre v = [] -> validate_errs F lvalidate lflag vrun nd pre' v = [].
+Proof. exact validation_path_independent. Qed.
+Print Assumptions C11_validation_path_independent.
+
+Theorem C11_obj_item_held_valid :
+  forall (F : Type) (lvalidate lto_python : F -> pyval -> res pyval) (ldefault : F -> N -> pyval) (lcallable lflag : F -> bool) (vrun : N -> list (str * pyval) -> bool) (o : cop) (k : str) (src : cfg) (w : world) (pre : str) (c : cfg) (dyn : bool) (vs : list N) (fs : list (str * node F)) (w' : world) (c' : cfg), obj_list_op o = Some (k, src) -> apply_cop F lvalidate lto_python ldefault lcallable lflag vrun w pre c dyn vs fs o = (w', c', OOk) -> exists (req : bool) (vs' : list N) (fs' : list (str * node F)) (l' : list cfg), fget F k fs = Some (NCfgList req vs' fs') /\ dget k (c_data c') = Some (VList l') /\ In src l' /\ (forall p : str, validate_errs F lvalidate lflag vrun (NSub false vs' fs') p (VCfg src) = []).
+Proof. exact obj_item_held_valid. Qed.
+Print Assumptions C11_obj_item_held_valid.
+
+From Cinco Require Import ConfigInst ConfigInstLemmas.
+
+(* what the code does with an object ASSIGNED to a sub-configuration slot: it is taken unvalidated; the unset required field is reported by the next whole-configuration validation (witness by computation on the concrete leaf instance), whereas the same object offered to a list is refused on the spot *)
+
+Theorem C11_set_obj_unvalidated_refuted :
+  let '(w1, c1, o1) := ex_obj_do ex_obj_w ex_obj_root [] ex_unset in let '(_, c2, o2) := ex_obj_do w1 c1 [] (XOp (CValidate false)) in o1 = OOk /\ defined c1 (sa "sub") = true /\ dget (sa "sub") (c_data c1) = Some (VCfg (snd (detached leaf lvalidate lto_python ldefault l_callable lflag (vrun []) ex_obj_w false [] ex_need []))) /\ o2 = OErr (EValidation (sa "sub.need")) /\ c2 = c1.
+Proof. exact set_obj_unvalidated_refuted. Qed.
+Print Assumptions C11_set_obj_unvalidated_refuted.
+
+Theorem C11_append_obj_rejected :
+  let '(w1, c1, _) := ex_obj_do ex_obj_w ex_obj_root [] (XOp (CSet (sa "items") (PList 0 []))) in let '(w2, c2, o2) := ex_obj_do w1 c1 [] (XObj RAppend (sa "items") false [] ex_need []) in let '(w3, c3, o3) := ex_obj_do w2 c2 [] (ex_set RAppend (sa "items")) in let '(_, c4, o4) := ex_obj_do w3 c3 [] (XObj (RInsert 0) (sa "items") false [] ex_need []) in o2 = OErr (EValidation (sa "items[0].need")) /\ c2 = c1 /\ o3 = OOk /\ dget (sa "items") (c_data c3) = Some (VList [snd (detached leaf lvalidate lto_python ldefault l_callable lflag (vrun []) w2 false [] ex_need [([], CSet (sa "need") (PInt 4))])]) /\ o4 = OErr (EValidation (sa "items[1].need")) /\ c4 = c3.
+Proof. exact append_obj_rejected. Qed.
+Print Assumptions C11_append_obj_rejected.
